@@ -270,7 +270,7 @@ class Arm(Robot):
         theta, success = fmr.IKinSpace(
                 self.screw_list, self._end_effector_home.gTM(),
                 goal_position.gTM(), theta_init,
-                self.pos_tolerance, self.rot_tolerance, max_iters=max_iters)
+                self.rot_tolerance, self.pos_tolerance, max_iters=max_iters)
         theta = fsr.angleMod(theta)
         self._theta = theta
         if success:
@@ -285,7 +285,7 @@ class Arm(Robot):
                     theta, success = fmr.IKinSpace(
                             self.screw_list, self._end_effector_home.gTM(),
                             goal_position.gTM(), theta_init,
-                            self.pos_tolerance, self.rot_tolerance, max_iters=max_iters)
+                            self.rot_tolerance, self.pos_tolerance, max_iters=max_iters)
                     i = i + 1
                 if success:
                     self._end_effector_pos_global = goal_position
